@@ -428,4 +428,16 @@ theorem ckParseLine_sound (p : Bytes) (n : Nat) (h : ckParseLine (p ++ [lf]) = .
                   have := List.all_eq_true.mp hbad.2 x hx
                   simpa [notCtl] using this))
 
+/-! ### stage statement (validator verdict ⇒ decoder state; the property theorem is
+    `c01_chunked_malformed_size_line_rejected`, against the grammar) -/
+
+/-- An invalid chunk-size line (as judged by the line validator) is a 400. -/
+theorem stage_chunked_bad_size_line_rejected (cfg : CkCfg) (p : Bytes) (e : Nat) (out : Bytes) (ka : Bool)
+    (hlf : lf ∉ p) (hnul : (0 : UInt8) ∉ p) (hlen : p.length + 1 < 1024)
+    (hbad : ckParseLine (p ++ [lf]) = .error e) :
+    (ckFeed cfg { mode := .hdr [] false, out := out, ka := ka, after := 0 } (p ++ [lf])).mode = .err e ∧
+    (ckFeed cfg { mode := .hdr [] false, out := out, ka := ka, after := 0 } (p ++ [lf])).ka = false := by
+  rw [ckFeed_append, ckFeed_hdr_pre cfg p [] out ka 0 hlf hnul (by simp; omega)]
+  simp [ckFeed_cons, ckFeed_nil, ckStep, hbad]
+
 end LtVerif
